@@ -25,21 +25,29 @@ RULE = ("48 policy combinations x encodings {ndarray C, ndarray F / transposed v
         "and query contexts, plus single-feature and single-row problems passed as Series; list encoding is the reference. "
         "Non-trivial = encoding that is not C-contiguous float64, or a Series on a one-feature / one-row problem; distinct = "
         "(combo, encoding, shape class)")
-BUDGET = {"quick": {"cases": 48 * 8, "shards": 8}, "thorough": {"cases": 48 * 8 * 30, "shards": 16, "wall_s": 2400}}
+BUDGET = {"quick": {"cases": 48 * 9, "shards": 8}, "thorough": {"cases": 48 * 9 * 30, "shards": 16, "wall_s": 2400}}
 MIN = {"quick": {"evaluations": 700, "nontrivial": 250, "counters": {"c18_snapshots": 2000, "c18_ctor_snapshots": 700}},
        "thorough": {"evaluations": 20000, "nontrivial": 800, "counters": {"c18_snapshots": 60000, "c18_ctor_snapshots": 20000}}}
 ASSUMPTIONS = ["integer encodings are used only where every value is integral (contexts always; rewards when binary)",
                "a Series as contexts is one column when there are several decisions and one row when there is one (the library's documented disambiguation)"]
 
-ENCODINGS = ["nd_c", "nd_f", "int", "object", "view", "series", "series_shift", "frame", "list_mixed"]
+ENCODINGS = ["nd_c", "nd_f", "int", "object", "view", "series", "series_shift", "frame", "list_mixed", "narrow", "narrow", "f4"]
 
 
 def enc1(values, e, kind):
     """encode a 1-D sequence (decisions / rewards)"""
     if e == "list_mixed":
         return [int(v) if (not isinstance(v, str) and float(v).is_integer() and kind == "r") else v for v in values]
-    if e in ("nd_c", "nd_f", "frame"):
+    if e in ("nd_c", "nd_f", "frame", "f4"):
         return np.asarray(values)
+    if e == "narrow":
+        # the smallest integer dtype that holds every value exactly (single precision is used for contexts only: float32
+        # rewards change the arithmetic of every mean, which is numpy's documented behaviour and not a container effect)
+        A = np.asarray(values)
+        if A.dtype.kind in "if":
+            B = gen.enc_X(A.reshape(-1, 1), e)
+            return np.asarray(B).reshape(-1)
+        return A
     if e == "int":
         if kind == "r" and all(float(v) in (0.0, 1.0) for v in values) and len(values) % 2:
             return np.asarray([bool(v) for v in values])  # boolean rewards (a legal encoding of binary rewards)
@@ -72,6 +80,8 @@ def enc2(X, e):
         e = "nd_c"  # an integer matrix cannot hold these values
     if e == "nd_c":
         return np.ascontiguousarray(A)
+    if e in ("narrow", "f4"):
+        return gen.enc_X(A, e)
     if e == "nd_f":
         return np.asfortranarray(A) if A.shape[1] > 1 or A.shape[0] % 2 else A.T.copy().T
     if e == "int":
@@ -124,6 +134,13 @@ def run_std(rs, ctx, l, p, e):
             for row in (M_ or [])[1:]:
                 for j in range(len(row)):
                     row[j] = row[j] + float(gen.pick(rs, [0.0, 0.25, 0.5, 0.75]))
+    if e in ("narrow", "int") and rs.integers(2):
+        # larger integer coordinates (still far inside every integer dtype that is chosen for them)
+        k_ = float(gen.pick(rs, [5, 30, 1000]))
+        for M_ in ([b1["X"], b2["X"]] if ctxual else []) + [Q]:
+            for row in (M_ or []):
+                for j in range(len(row)):
+                    row[j] = row[j] * k_
     use_q = ctxual or bool(rs.integers(2))
     warm = gen.gen_warm(rs, cfg["arms"]) if p == "none" else None
     outs = {}
@@ -242,12 +259,14 @@ def run_series(rs, ctx, l, p, mode):
 
 def run_case(rs, ctx):
     l, p = gen.ALL_COMBOS[ctx.index % 48]
-    slot = (ctx.index // 48) % 8
+    slot = (ctx.index // 48) % 9
+    if slot == 8:
+        return run_std(rs, ctx, l, p, "narrow")
     if slot == 5:
         return run_series(rs, ctx, l, p, "one_feature")
     if slot == 6:
         return run_series(rs, ctx, l, p, "one_row")
-    e = ENCODINGS[slot] if slot < 5 else ENCODINGS[5 + int(rs.integers(4))]
+    e = ENCODINGS[slot] if slot < 5 else ENCODINGS[5 + int(rs.integers(7))]
     return run_std(rs, ctx, l, p, e)
 
 
